@@ -22,6 +22,9 @@ import (
 type fileCfg struct {
 	Path   string   `json:"path"`   // relative to repo
 	Points []string `json:"points"` // functions that get a scheduling point before every statement ("*" = all)
+	// LitPoints: functions whose FUNCTION LITERALS (goroutine bodies, closures) get a scheduling point
+	// before every statement, while the function's own body does not (e.g. the worker closure of a pool)
+	LitPoints []string `json:"lit_points"`
 	Fail   bool     `json:"fail"`   // insert MaybeFail after `…, err := f()` followed by `if err != nil`
 	MapLines []int  `json:"maplines"` // lines of `range` statements over maps (from the typed scan)
 }
@@ -84,6 +87,8 @@ type rewriter struct {
 	useVsched bool
 	useVchoice bool
 	mapLines  map[int]bool
+	litPts    map[string]bool
+	curFunc   string
 }
 
 func (r *rewriter) count(k string) { r.n[k]++ }
@@ -180,7 +185,7 @@ func (r *rewriter) expr(e ast.Expr) ast.Expr {
 		}
 		return x
 	case *ast.FuncLit:
-		r.block(x.Body, false)
+		r.block(x.Body, r.litPts[r.curFunc])
 		return x
 	case *ast.BinaryExpr:
 		x.X, x.Y = r.expr(x.X), r.expr(x.Y)
@@ -488,11 +493,16 @@ func instrument(path string, fc fileCfg) ([]byte, string, error) {
 	for _, p := range fc.Points {
 		pts[p] = true
 	}
+	r.litPts = map[string]bool{}
+	for _, p := range fc.LitPoints {
+		r.litPts[p] = true
+	}
 	for _, d := range f.Decls {
 		fd, ok := d.(*ast.FuncDecl)
 		if !ok || fd.Body == nil {
 			continue
 		}
+		r.curFunc = fd.Name.Name
 		r.block(fd.Body, pts["*"] || pts[fd.Name.Name])
 	}
 	// imports
